@@ -11,6 +11,8 @@ package keeper
 // engine enumerates the orders; a native replay repeats the run) shows up as a difference.
 
 import (
+	"bytes"
+
 	"github.com/circlefin/noble-cctp/x/cctp/types"
 	"github.com/circlefin/noble-cctp/x/cctp/verifrt"
 )
@@ -28,41 +30,49 @@ func c18caps() userCaps {
 	return c
 }
 
-func c18exec(idx int) c18run {
+// c18exec runs transaction idx once on a fresh keeper instance. statePrefix scopes the names of the
+// state's nondeterministic contents; reqPrefix those of the request.
+func c18exec(idx int, statePrefix, reqPrefix string) c18run {
 	h := newH("")
 	var r c18run
 	r.h = h
 	if idx < numPrivileged {
+		verifrt.PushPrefix(statePrefix)
 		h.setupAdminState(1)
+		verifrt.PopPrefix()
+		verifrt.PushPrefix(reqPrefix)
 		from := nondetSubmitter()
 		h.Env.BeginTx()
 		r.ok, _ = h.callAdmin(idx, from)
+		verifrt.PopPrefix()
 	} else {
 		c := c18caps()
+		verifrt.PushPrefix(statePrefix)
 		h.setupUserState(1, c)
 		h.assumeThresholdInvariant()
+		verifrt.PopPrefix()
+		verifrt.PushPrefix(reqPrefix)
 		h.Env.BeginTx()
 		var m *userMsg
 		r.ok, _, m = h.callUser(idx, c)
+		verifrt.PopPrefix()
 		r.nonce = m.Nonce
-		if idx == hReceiveMessage || idx == hReplaceMessage || idx == hReplaceDepositForBurn {
-			verifrt.ProbeAttestation(verifrt.Prefix()+"m_message", verifrt.Prefix()+"m_attestation", verifrt.Prefix()+"att", m.Message, m.Attestation, h.Att, 1)
+		if statePrefix == "" && (idx == hReceiveMessage || idx == hReplaceMessage || idx == hReplaceDepositForBurn) {
+			verifrt.ProbeAttestation("m_message", "m_attestation", "att", m.Message, m.Attestation, h.Att, 1)
 		}
 	}
 	return r
 }
 
 func c18handler(idx int) {
-	b1 := c18exec(idx)
-	verifrt.PushPrefix("other_")
-	a := c18exec(idx)
-	verifrt.PopPrefix()
+	b1 := c18exec(idx, "", "")
+	a := c18exec(idx, "other_", "other_")
 	// the other instance did something (a failed transaction leaves no trace by the rollback contract)
 	verifrt.Assume(a.ok)
 	same := true
 	n := verifrt.Repeat()
 	for i := 0; i < n; i++ {
-		b2 := c18exec(idx)
+		b2 := c18exec(idx, "", "")
 		same = verifrt.All(same, b1.ok == b2.ok, b1.nonce == b2.nonce, verifrt.SameObservations(b1.h.Env, b2.h.Env))
 	}
 	verifrt.Cover("compared")
@@ -126,3 +136,36 @@ func Harness_C18_VerifierIndependentOfEarlierVerifications() {
 	verifrt.Cover("compared")
 	verifrt.Assert("C18/verifier/verdict-independent-of-earlier-verifications", (e1 == nil) == (e2 == nil))
 }
+
+// globalsFingerprint reads every package-level byte slice and scalar of the module's packages that
+// handlers consult; a transaction must leave it unchanged.
+func globalsFingerprint() []byte {
+	var fp []byte
+	fp = append(fp, zeroByteArray...)
+	fp = append(fp, types.PaddedModuleAddress...)
+	fp = append(fp, types.ModuleAddress...)
+	fp = append(fp, types.OwnerKey...)
+	fp = append(fp, types.PendingOwnerKey...)
+	fp = append(fp, types.AttesterManagerKey...)
+	fp = append(fp, types.PauserKey...)
+	fp = append(fp, types.TokenControllerKey...)
+	fp = append(fp, byte(remoteTokenNumBytes), byte(len(zeroByteArray)), byte(len(types.PaddedModuleAddress)))
+	return fp
+}
+
+// c18globals: transaction idx (successful or not) leaves the module's package-level memory unchanged.
+func c18globals(idx int) {
+	before := append([]byte{}, globalsFingerprint()...)
+	r := c18exec(idx, "", "")
+	after := globalsFingerprint()
+	if r.ok {
+		verifrt.Cover("accepted")
+	}
+	verifrt.Cover("compared")
+	verifrt.Assert("C18/handler/package-level-memory-unchanged", bytes.Equal(before, after))
+}
+
+// the acceptance specifications of receive (C03) and deposit (C08) keep holding on a fresh keeper
+// instance after a different instance successfully executed transaction `before` in the same process
+func c18receiveAfter(before int) { receiveLemmaN("C03", false, 1, before) }
+func c18depositAfter(before int) { producerLemmaAfter(hDepositForBurn, "C08", false, before) }
